@@ -75,3 +75,16 @@ func H_C16_cmp() {
 	vAssert("C16.signbit", vImp(x.Cmp(zero) < 0, x.Signbit()))
 	vReach("C16.cmp.end")
 }
+
+// transitivity and totality on arbitrary finite triples (mixed signs)
+func H_C16_trans() {
+	x := vDec("x", fFinite, vCfg("wx"), 0, 0)
+	y := vDec("y", fFinite, vCfg("wy"), 0, 0)
+	z := vDec("z", fFinite, vCfg("wz"), 0, 0)
+	xy, yz, xz := x.Cmp(y), y.Cmp(z), x.Cmp(z)
+	vAssert("C16.trans.le", vImp(vAnd(xy <= 0, yz <= 0), xz <= 0))
+	vAssert("C16.trans.lt", vImp(vAnd(xy < 0, yz <= 0), xz < 0))
+	vAssert("C16.trans.eq", vImp(vAnd(xy == 0, yz == 0), xz == 0))
+	vAssert("C16.range", vAnd(xy >= -1, xy <= 1))
+	vReach("C16.trans.end")
+}
